@@ -671,7 +671,13 @@ func apply(op string, l, r any) any {
 			return DontCare
 		}
 		for _, ev := range list {
-			if b, ok := equalScalar(l, norm(ev)).(bool); ok && b {
+			nv := norm(ev)
+			if b, ok := equalScalar(l, nv).(bool); ok && b {
+				if isNum(l) && kindOf(l) != kindOf(nv) {
+					// 1.0 in [1]: the documentation speaks of membership, not of comparing across
+					// int and float; ojg compares the values as they are. Not defined.
+					return DontCare
+				}
 				return true
 			}
 		}
